@@ -6,6 +6,7 @@ import (
 	"math/big"
 	"math/rand"
 	"os"
+	"strings"
 
 	"verifharness/core"
 )
@@ -965,7 +966,109 @@ func scenarios() []scenario {
 		})
 	}, nil)
 
+	// 11. several different creation codes inside one transaction, each with jumps: the jump-destination analysis of
+	// one creation code (which has no code hash) says nothing about another's; also nested: a creation code that itself
+	// creates from a different creation code, and the same creation code twice
+	add("several-creation-codes-with-jumps", func() []*World {
+		return bothSets(func(gal bool) []*World {
+			var ws []*World
+			r := rand.New(rand.NewSource(777))
+			inits := jumpingInits(r)
+			for v := 0; v < 40; v++ {
+				n := 2 + r.Intn(3)
+				var pick [][]byte
+				var names []string
+				for i := 0; i < n; i++ {
+					k := r.Intn(len(inits))
+					pick = append(pick, inits[k])
+					names = append(names, fmt.Sprint(k))
+				}
+				w := miniWorld(gal, creationFactory(r.Intn(2) == 0, pick...), nil, 30000000)
+				w.Note = "factory creating from creation codes " + strings.Join(names, ",")
+				ws = append(ws, w)
+			}
+			return ws
+		})
+	}, nil)
+
 	return list
+}
+
+// jumpingInits: creation codes that all execute jumps, with JUMPDESTs at positions that are push data, plain opcodes
+// or beyond the end in the others.
+func jumpingInits(r *rand.Rand) [][]byte {
+	var out [][]byte
+	// PUSH1 3; JUMP; JUMPDEST; STOP
+	out = append(out, []byte{0x60, 0x03, 0x56, 0x5b, 0x00})
+	// a loop through a JUMPDEST at pc=1, deploys one byte
+	out = append(out, []byte{0x34, 0x5b, 0x60, 0x01, 0x01, 0x80, 0x60, 0x01, 0x14, 0x60, 0x01, 0x57, 0x60, 0x00, 0x52, 0x60, 0x01, 0x60, 0x1f, 0xf3})
+	// jump to a JUMPDEST far behind filler
+	for _, at := range []int{0x40, 0x21, 0x09, 0x7f} {
+		c := []byte{0x60, byte(at), 0x56}
+		for len(c) < at {
+			c = append(c, 0x60) // PUSH1 filler: every second byte is push data
+		}
+		c = append(c, 0x5b)
+		// deploy `at` as the one-byte runtime code
+		c = append(c, 0x60, byte(at), 0x60, 0x00, 0x53, 0x60, 0x01, 0x60, 0x00, 0xf3)
+		out = append(out, c)
+	}
+	// random straight-line prefix of pushes, then a jump over a data island containing 0x5b bytes
+	for i := 0; i < 6; i++ {
+		var c []byte
+		for k, n := 0, r.Intn(6); k < n; k++ {
+			c = append(c, 0x60, 0x5b, 0x50) // PUSH1 0x5b; POP
+		}
+		island := 1 + r.Intn(20)
+		dest := len(c) + 3 + island
+		c = append(c, 0x60, byte(dest), 0x56)
+		for k := 0; k < island; k++ {
+			c = append(c, []byte{0x5b, 0x60, 0x7f, 0xfe}[r.Intn(4)])
+		}
+		// the island may end in a PUSH opcode whose data would swallow the JUMPDEST: end it with a one-byte opcode
+		c[len(c)-1] = 0xfe
+		c = append(c, 0x5b, 0x60, byte(i+1), 0x60, 0x00, 0x53, 0x60, 0x01, 0x60, 0x00, 0xf3)
+		out = append(out, c)
+	}
+	return out
+}
+
+// creationFactory builds a contract that CREATEs (or CREATE2s) from every given creation code in turn, copying it out
+// of its own code, and returns the created addresses.
+func creationFactory(create2 bool, inits ...[]byte) []byte {
+	a := &asm{}
+	// first pass to know the code length: the layout per creation code has a fixed size because offsets use PUSH2
+	build := func(base int) []byte {
+		a = &asm{}
+		off := base
+		for i, ic := range inits {
+			a.op(opPUSH2, byte(len(ic)>>8), byte(len(ic)))
+			a.op(opPUSH2, byte(off>>8), byte(off))
+			a.op(opPUSH2, 0x02, 0x00)
+			a.op(opCODECOPY)
+			if create2 {
+				a.op(opPUSH1, byte(i)) // salt
+			}
+			a.op(opPUSH2, byte(len(ic)>>8), byte(len(ic)))
+			a.op(opPUSH2, 0x02, 0x00)
+			a.op(opPUSH1, 0)
+			if create2 {
+				a.op(opCREATE2)
+			} else {
+				a.op(opCREATE)
+			}
+			a.op(opPUSH1, byte(i*32)).op(opMSTORE)
+			off += len(ic)
+		}
+		a.ret(0, uint64(len(inits)*32))
+		return a.done()
+	}
+	code := build(0)
+	code = build(len(code))
+	for _, ic := range inits {
+		code = append(code, ic...)
+	}
+	return code
 }
 
 func wb(n uint64) []byte {
